@@ -13,7 +13,11 @@ Tie by regeneration: `_ensure_list_size`, `_set_by_path`, `apply_obligations` ar
 state, the cursor `cur` an access path into it, every store a functional update, every operation that can raise `Option`-valued); the
 per-run obligation `Run/C19_translated.lean` proves the translation equal to the model's `setByPath` / `applySpecs` — in particular
 that no subscript of the source raises on any tree — and the translation is evaluated against the real functions
-(`translated_vs_python`)."""
+(`translated_vs_python`).  `DecisionLogger.__init__` (normalisation), `_should_drop_by_sampling` and `log` are translated by
+`harness/pytolean_logger.py` (plugin `extractors/src_translation_logger.py`; floats as the model's `FNum`, `apply_obligations` and the size
+oracle as raising points of the nested try/except, "emit" as the result); `Run/C19_logger_translated.lean` proves them equal to the model's
+`LogCfg` / `shouldDrop` / `log`, `Run/C19_logger_composed.lean` composes the two translations, and `logger_translated_vs_python` runs the
+translation against the REAL `DecisionLogger`."""
 from __future__ import annotations
 
 import ast
@@ -1359,10 +1363,31 @@ def check(run: lib.Run, audit: dict) -> int:
         ok_py, detail_py = translated_vs_python(run)
     run.obligation("translated enforcer evaluates like the real _set_by_path / apply_obligations (translator + Model/PyCursor.lean vs CPython)",
                    ok_py, detail_py)
+    # the logger as it is written NOW (__init__ normalisation, _should_drop_by_sampling, log), translated into Lean, is proved equal to the model's
+    trl = audit["facts"].get("translated_logger")
+    untranslatable_l = isinstance(trl, dict) and "extraction_failed" in trl
+    ok_lg, detail_lg = lib.run_obligation("C19_logger_translated")
+    run.obligation("C19_logger_translated: Generated.Src.logger_init / Src.should_drop / Src.logger_log (the current source text of DecisionLogger.__init__, "
+                   "_should_drop_by_sampling and log; typed reading of floats, try/except with apply_obligations and the size oracle as raising points, "
+                   "emit as the result) = the model's LogCfg / shouldDrop / log, for every constructor argument tuple, payload whose env is a dict or "
+                   "falsy, draw and size oracle — dropped / emitted record, the two except fall-backs included", ok_lg,
+                   "discharged" if ok_lg else (str(trl["extraction_failed"]) if untranslatable_l else detail_lg))
+    if ok_tr and ok_lg:
+        ok_lc, detail_lc = lib.run_obligation("C19_logger_composed", deps=["C19_translated", "C19_logger_translated"])
+    else:
+        ok_lc, detail_lc = False, "not attempted: " + " and ".join(n for n, o in (("C19_translated", ok_tr), ("C19_logger_translated", ok_lg)) if not o) + " undischarged"
+    run.obligation("C19_logger_composed: the translated log with the TRANSLATED enforcer Src.apply_obligations as its external = the model's log, "
+                   "for documented (plainSpec) effective redaction specs", ok_lc, "discharged" if ok_lc else detail_lc)
+    if untranslatable_l or not isinstance(trl, dict):
+        ok_lpy, detail_lpy = True, "skipped: the logger is not in the translatable subset (see C19_logger_translated)"
+    else:
+        ok_lpy, detail_lpy = logger_translated_vs_python(run, defaults)
+    run.obligation("translated logger evaluates like the real DecisionLogger: attributes after __init__, _should_drop_by_sampling, dropped / the record "
+                   "handed to logging.Logger.log (translator + Model/PyLogger.lean vs CPython)", ok_lpy, detail_lpy)
     keep: list[dict] = []
     run_cases(run, defaults, keep=keep)
     overlapping_records(run)
-    if (run.disagreements or not ok_tr) and not run.spec_failures:
+    if (run.disagreements or not ok_tr or not ok_lg or not ok_lc) and not run.spec_failures:
         run_cases(run, defaults, scale=5)   # correspondence / the translation tie broke: widen the search for a failing input
     try:
         run.extra["anchored_line_coverage"] = anchored_coverage(keep)
@@ -1391,10 +1416,22 @@ def check(run: lib.Run, audit: dict) -> int:
                     "about; the widened search found no payload, path and spec list on which the redaction spec is violated",
             "translation": tr, "lean": detail_tr[-1500:], "first_disagreement": run.disagreements[:1]})
         violations.append((path, False))
-    elif run.disagreements or not ok_py:
-        first = run.disagreements[0] if run.disagreements else {"part": "translated source vs python", "what": detail_py}
+    elif not ok_lg or not ok_lc:
+        which = "C19_logger_translated" if not ok_lg else "C19_logger_composed"
+        path = run.write_replay("obligation", {
+            "what": f"per-run obligation Rbacx/Run/{which}.lean no longer checks: the translated source of DecisionLogger.__init__ / "
+                    "_should_drop_by_sampling / log is not proved equal to the model's LogCfg / shouldDrop / log, the functions theorems "
+                    "Rbacx.C19.c19_priority / c19_sampling / c19_smart_defaults / c19_size_bound / c19_no_leak are about; the widened search found no "
+                    "configuration, payload and draw on which the logger spec is violated",
+            "translation": trl, "lean": (detail_lg if not ok_lg else detail_lc)[-1500:], "first_disagreement": run.disagreements[:1]})
+        violations.append((path, False))
+    elif run.disagreements or not ok_py or not ok_lpy:
+        first = run.disagreements[0] if run.disagreements else (
+            {"part": "translated source vs python", "what": detail_py} if not ok_py else {"part": "translated logger vs python", "what": detail_lpy})
         path = run.write_replay("correspondence", {
-            "what": ("translated source vs python: " + str(first.get("what")) + "; the obligation C19_translated rests on a translation that "
+            "what": ("translated logger vs python: " + str(first.get("what")) + "; the obligation C19_logger_translated rests on a translation that "
+                     "CPython contradicts (or that could not be evaluated)") if first.get("part") == "translated logger vs python" else
+                    ("translated source vs python: " + str(first.get("what")) + "; the obligation C19_translated rests on a translation that "
                      "CPython contradicts (or that could not be evaluated)") if first.get("part") == "translated source vs python" else
                     "model (Rbacx.Redact.setByPath / applySpecs / log) and implementation disagree on the emitted env / dropped flag; "
                     "theorems Rbacx.C19.* no longer speak about this code", "first": first, "count": len(run.disagreements)})
@@ -1417,6 +1454,11 @@ def replay(run: lib.Run, audit: dict, path: str) -> int:
             now = f"raised {type(e).__name__}"
         print(f0["function"], "now:", json.dumps(now, default=str)[:1500], "recorded:", json.dumps(f0.get("impl"), default=str)[:1500],
               "translated:", json.dumps(f0.get("model"), default=str)[:1500])
+        return 1
+    if f0.get("part") == "translated logger vs python":
+        now = real_logger_run(f0["case"])
+        print(f0["function"], "now:", json.dumps({k: v for k, v in now.items() if k != "sizes"}, default=str)[:1500], "recorded:",
+              json.dumps(f0.get("impl"), default=str)[:1500], "translated:", json.dumps(f0.get("model"), default=str)[:1500])
         return 1
     if "case" not in rp and "first" not in rp:
         print("recorded:", json.dumps(rp, default=str)[:2000])
